@@ -15,7 +15,9 @@ type Proto struct {
 	NN   uint16
 	IOX  uint8
 	IOY  uint8
-	Data int // data pattern poked at the pointer targets (0 = background)
+	// IOFixed: the device answers IOX on every port (used to sweep all 256 answers)
+	IOFixed bool
+	Data    int // data pattern poked at the pointer targets (0 = background)
 }
 
 // Mod modifies a Proto. Mods of pairs apply the PC dimension first so that
@@ -232,7 +234,7 @@ var dataPatterns = [][]uint8{nil, {0x00, 0x00}, {0xFF, 0xFF}, {0x80, 0x7F}, {0x0
 // materialise turns a Proto into a Case for encoding e.
 func materialise(p *Proto, e *Enc, cs *Case) {
 	cs.S = p.S
-	cs.IOX, cs.IOY = p.IOX, p.IOY
+	cs.IOX, cs.IOY, cs.IOFixed = p.IOX, p.IOY, p.IOFixed
 	cs.Bytes = append(cs.Bytes[:0], e.Fixed...)
 	if e.DPos >= 0 {
 		cs.Bytes[e.DPos] = p.D
@@ -262,11 +264,12 @@ type protoKey struct {
 	d, n uint8
 	nn   uint16
 	iox  uint8
+	iof  bool
 	data int
 }
 
 func keyOf(p *Proto, e *Enc) protoKey {
-	k := protoKey{s: p.S, iox: p.IOX, data: p.Data}
+	k := protoKey{s: p.S, iox: p.IOX, iof: p.IOFixed, data: p.Data}
 	k.s.F = 0
 	if e.DPos >= 0 {
 		k.d = p.D
@@ -298,6 +301,21 @@ func (l *Lattice) forEachProto(e *Enc, seen map[protoKey]struct{}, fn func(idx i
 			seen[k] = struct{}{}
 			fn(idx, &p)
 		}
+		if b == 0 && readsPort(e) {
+			// device answers: all 256 byte values (the answer does not depend on the port here;
+			// the port-dependent answers of the other lattice points expose a wrong port)
+			for v := 0; v < 256; v++ {
+				p := l.Bases[b]
+				p.IOX, p.IOFixed = uint8(v), true
+				idx++
+				k := keyOf(&p, e)
+				if _, dup := seen[k]; dup {
+					continue
+				}
+				seen[k] = struct{}{}
+				fn(idx, &p)
+			}
+		}
 		if l.AllD && e.DPos >= 0 {
 			for d := 0; d < 256; d++ {
 				p := l.Bases[b]
@@ -312,4 +330,12 @@ func (l *Lattice) forEachProto(e *Enc, seen map[protoKey]struct{}, fn func(idx i
 			}
 		}
 	}
+}
+
+func readsPort(e *Enc) bool {
+	switch e.Inst.Kind {
+	case refz80.KInC, refz80.KInAn, refz80.KBlkIn:
+		return true
+	}
+	return false
 }
